@@ -63,16 +63,29 @@ def outcome(src: str, shorthand: bool = False) -> tuple:
         return ("pyexc", type(e).__name__, innermost(e))
 
 
+UTILITY_MODULES = ("limits", "filter", "stringify", "undefined", "utils.")
+
+
 def innermost(e: BaseException) -> str:
-    """Innermost liquid2 function on the traceback, as `module.function`."""
+    """Innermost liquid2 function on the traceback, as `module.function`; when
+    that is a shared helper (limits.to_int, filter.num_arg ...) its liquid2
+    caller is appended (`limits.to_int <- builtin.tags.x.f`) so that different
+    mechanisms reaching the same helper have different signatures."""
     tb = e.__traceback__
-    where = "?"
+    frames = []
     while tb is not None:
         fn = tb.tb_frame.f_code.co_filename
         if "/liquid2/" in fn:
             mod = fn.split("/liquid2/")[-1][:-3].replace("/", ".")
-            where = f"{mod}.{tb.tb_frame.f_code.co_name}"
+            frames.append(f"{mod}.{tb.tb_frame.f_code.co_name}")
         tb = tb.tb_next
+    if not frames:
+        return "?"
+    where = frames[-1]
+    if where.startswith(UTILITY_MODULES):
+        callers = [f for f in frames[:-1] if not f.startswith(UTILITY_MODULES)]
+        if callers:
+            where += " <- " + callers[-1]
     return where
 
 
@@ -415,7 +428,7 @@ def ast_positions(src: str) -> tuple[int, str | None]:
                     d[a] = getattr(o, a)
         return d
 
-    def walk(o: Any, depth: int) -> None:
+    def walk(o: Any, depth: int, inside: tuple[int, int] | None = None) -> None:
         nonlocal count, fail
         if depth > 60 or fail:
             return
@@ -427,21 +440,108 @@ def ast_positions(src: str) -> tuple[int, str | None]:
                 if getattr(tok, "source", src) == src and not (0 <= a < n and a <= b <= n):
                     fail = f"ast-position: {type(o).__name__}.token spans [{a},{b}) outside the source of length {n}"
                     return
+                if inside is not None and getattr(tok, "source", src) == src and not (inside[0] <= a < inside[1]):
+                    fail = (f"ast-position: {type(o).__name__}.token starts at {a}, outside its own "
+                            f"liquid tag [{inside[0]},{inside[1]})")
+                    return
+                if type(o).__name__ == "LiquidNode" and getattr(tok, "source", src) == src:
+                    inside = (a, b)   # line statements lie inside their {% liquid %} tag
             for v in fields(o).values():
-                walk(v, depth + 1)
-        elif isinstance(o, (list, tuple)):
+                walk(v, depth + 1, inside)
+            return
+        if isinstance(o, (list, tuple)):
             for v in o:
-                walk(v, depth + 1)
+                walk(v, depth + 1, inside)
         elif isinstance(o, dict):
             for v in o.values():
-                walk(v, depth + 1)
+                walk(v, depth + 1, inside)
         elif (hasattr(o, "__dict__") and type(o).__module__.startswith("liquid2")
               and not isinstance(o, Environment) and type(o).__name__ != "Template"):
             for v in fields(o).values():
-                walk(v, depth + 1)
+                walk(v, depth + 1, inside)
 
     walk(t.nodes, 0)
     return count, fail
+
+
+# ---------------------------------------------------------------- error locations
+
+_BOUNDARY = None
+
+
+def expected_location(src: str, index: int) -> tuple[int, int] | None:
+    """(line, column) of `index`, computed independently of liquid2 by counting
+    line boundaries before it (for a source whose only boundary is "\n":
+    line = src.count("\n", 0, index) + 1, column = index - last newline - 1).
+    None when the position is at/after the end of a source that ends with a
+    boundary (the formatter then reports the end of the last line)."""
+    import re
+
+    global _BOUNDARY
+    if _BOUNDARY is None:
+        _BOUNDARY = re.compile("\r\n|[\n\r\x0b\x0c\x1c\x1d\x1e\x85\u2028\u2029]")
+    if index >= len(src):
+        if not src or _BOUNDARY.search(src[-1]):
+            return None
+        index = len(src)
+    line, last = 1, 0
+    for m in _BOUNDARY.finditer(src):
+        if m.end() <= index:
+            line += 1
+            last = m.end()
+        else:
+            break
+    return line, index - last
+
+
+def location_check(e: Any, src: str) -> str | None:
+    """The line and column that a LiquidError prints (context(), detailed_message(),
+    str()) are the line and column of its token's start. Returns
+    'mechanism: text' of the first failure."""
+    import re
+
+    tok = getattr(e, "token", None)
+    if tok is None or tok.start < 0 or getattr(tok, "source", None) != src:
+        return None
+    exp = expected_location(src, tok.start)
+    try:
+        ctx = e.context()
+        msg = e.detailed_message()
+        text = str(e)
+    except Exception as e2:  # noqa: BLE001
+        return f"error-format: formatting {type(e).__name__} raised {type(e2).__name__}"
+    if ctx is None:
+        return f"error-location: context() is None for a token at {tok.start}"
+    if exp is None:
+        return None
+    if (ctx[0], ctx[1]) != exp:
+        return (f"error-location: context() says line {ctx[0]} column {ctx[1]}, "
+                f"token.start={tok.start} is line {exp[0]} column {exp[1]}")
+    lines = src[: tok.start].count("\n")
+    cur = ctx[3]
+    real = src.split("\n")[lines] if not re.search("[\r\x0b\x0c\x1c\x1d\x1e\x85\u2028\u2029]", src) else None
+    if real is not None and cur != real.rstrip():
+        return f"error-location: context() current line {cur!r} is not source line {exp[0]} {real.rstrip()!r}"
+    ml = msg.split("\n")
+    if text != msg:
+        return "error-location: str(exc) differs from detailed_message()"
+    if len(ml) < 5:
+        return f"error-location: detailed_message() has {len(ml)} lines"
+    m = re.search(r"(\d+):(\d+)$", ml[1])
+    if not m or (int(m.group(1)), int(m.group(2))) != exp:
+        return (f"error-location: detailed_message() header {ml[1]!r} does not end with "
+                f"{exp[0]}:{exp[1]} (token.start={tok.start})")
+    if not ml[3].startswith(f"{exp[0]} | "):
+        return f"error-location: detailed_message() source line {ml[3]!r} is not numbered {exp[0]}"
+    if real is not None and ml[3] != f"{exp[0]} | {real.rstrip()}":
+        return f"error-location: detailed_message() shows {ml[3]!r}, source line {exp[0]} is {real.rstrip()!r}"
+    # the pointer line: column spaces, then carets
+    pm = re.match(r"^\s*\| ( *)(\^+)", ml[4])
+    if pm and not isinstance(tok, tuple) and type(tok).__name__ in ("Token", "ErrorToken", "TagToken", "PathToken"):
+        if len(pm.group(1)) != exp[1]:
+            return (f"error-location: pointer is under column {len(pm.group(1))}, "
+                    f"token starts at column {exp[1]}")
+    return None
 
 
 # ---------------------------------------------------------------- correspondence with one retry
